@@ -81,7 +81,8 @@ func cmdPriorityPair(args []string) error {
 		if m[k] == "" {
 			return nil
 		}
-		r, err := rules.NewNetworkRule(m[k], 1)
+		// the rule comes from the list it came from in the matrix run (la=, lb=, lc=; default 1)
+		r, err := rules.NewNetworkRule(m[k], argInt(m, "l"+k, 1))
 		if err != nil {
 			panic(err)
 		}
